@@ -40,6 +40,7 @@ TOL_PX = 1e-6                           # pixel (statement)
 FIT_K = 30                              # find=False: FIT_K * rms(fit on its own grid) + TOL_PX
 TOL_JAC = "(1 / 1000000000)"          # relative, correspondence of get_jacobian with the model formula
 TOL_CDINV = 1e-9
+XTOL_STATEMENT = 1e-8                   # "1e-6 pixel with root finding" is demanded for xtol <= the default 1e-8 (incl. 0.0)
 TOL_SKY_F = 1e-9                        # degree
 TOL_JAC_SAME = 3.6e-6                   # arcsec/px: 3600 * (2 * 1e-9 degree) / (2 * step), step = 1
 
@@ -181,6 +182,9 @@ class Forward(Base):
             # the reference pixel, wherever it is
             out.append({"header": h, "pts": [[h["crpix1"], h["crpix2"]]], "distort": True, "arr": False,
                         "family": fam, "crpix": True})
+        for _ in range(ctx.n(6, 40) if round == 0 else 4):
+            h, fam, pts = g.gen_special(ctx.rng)
+            out.append({"header": h, "pts": pts, "distort": True, "arr": ctx.rng.random() < 0.5, "family": fam})
         # reference point on the RA = 0 seam written as 0.0 or 360.0, axis-aligned CD matrix, pixels exactly on
         # the meridian through the reference pixel: through the array AND the scalar code
         for _ in range(ctx.n(8, 60) if round == 0 else 6):
@@ -224,6 +228,20 @@ class RoundTrip(Base):
                 ctx.rng.choice(["find", "fit", "nodistort"])
             pts = g.gen_points(ctx.rng, h, ctx.n(10, 16))
             out.append({"header": h, "pts": pts, "mode": mode, "family": fam})
+        # root finding with non-default xtol: tighter than the default down to 0.0 (1e-6 px demanded), looser (MINPACK's
+        # relative-error contract demanded)
+        kinds_d = ["tpv", "sip", "tan-pv", "sip-noinv", "tpv-sparse", "sip-bonly", "tan"]
+        for i in range(ctx.n(20, 150) if round == 0 else 10):
+            kind = kinds_d[i % len(kinds_d)]
+            h = g.gen_header(ctx.rng, kind, ctx.rng.choice(g.CRVAL_FAMILIES), ctx.rng.choice(["inside", "inside", "outside"]))
+            xtol = g.XTOLS[i % len(g.XTOLS)]
+            out.append({"header": h, "pts": g.gen_points(ctx.rng, h, ctx.n(20, 24)), "mode": "find", "xtol": xtol,
+                        "family": "%s/find-xtol-%g/x" % (kind, xtol)})
+        # exact special values (CRVAL 0.0 / -0.0, CRPIX 0.0, pixel 0.0, neutral coefficient sets)
+        for i in range(ctx.n(6, 40) if round == 0 else 4):
+            h, fam, pts = g.gen_special(ctx.rng)
+            pts = [p for p in pts if p != [h["crpix1"], h["crpix2"]] or True]
+            out.append({"header": h, "pts": pts, "mode": ["find", "fit", "nodistort"][i % 3], "family": fam})
         # find=False on portrait and landscape images, TPV and SIP inverse fits, positions over the whole image
         kinds = ["tpv", "sip", "tan-pv", "sip-noinv", "tpv-sparse", "sip-bonly"]
         for i in range(ctx.n(12, 96) if round == 0 else 12):
@@ -242,6 +260,8 @@ class RoundTrip(Base):
         kw = {"find": dict(find=True, distort=True), "fit": dict(find=False, distort=True),
               "find-dflag": dict(find=True, distort=False),      # root finding inverts the full transform whatever `distort`
               "nodistort": dict(find=False, distort=False)}[mode]
+        if c.get("xtol") is not None:
+            kw = dict(kw, xtol=c["xtol"])
         pairs = []
         for x, y in c["pts"]:
             lon, lat = w.image2sky(x, y, distort=fdist)
@@ -264,6 +284,12 @@ class RoundTrip(Base):
             if not math.isfinite(out["rms"]):
                 return FAIL
             return "v_roundtrip_fit %s %s %s %s" % (l, cQ(float(FIT_K)), cQ(out["rms"]), cQ(TOL_PX))
+        xtol = c.get("xtol")
+        if xtol is not None and xtol > XTOL_STATEMENT:
+            # looser than the default: the statement's 1e-6 px cannot be demanded; MINPACK's own contract (relative
+            # error of the iterate at most xtol) is: error <= xtol * max(|x|, |y|, 1)
+            nrm = max([1.0] + [max(abs(p[0]), abs(p[1])) for p in out["pairs"]])
+            return "v_roundtrip %s %s" % (l, cQ(max(TOL_PX, xtol * nrm)))
         return "v_roundtrip %s %s" % (l, cQ(TOL_PX))
 
 
@@ -599,7 +625,8 @@ def run_op(w, o, keep=None):
     if o["op"] == "i2s":
         return flat(w.image2sky(a, b, distort=o["distort"]))
     if o["op"] == "s2i":
-        return flat(w.sky2image(a, b, distort=o["distort"], find=o["find"]))
+        kw = {} if o.get("xtol") is None else {"xtol": o["xtol"]}
+        return flat(w.sky2image(a, b, distort=o["distort"], find=o["find"], **kw))
     return flat(w.get_jacobian(a, b, distort=o["distort"]))
 
 
@@ -643,6 +670,86 @@ class History(Base):
 
     def nontrivial(self, c, out):
         return "err" not in out and len(c["ops"]) >= 2
+
+
+class Sequence(Base):
+    """several WCS objects alive in ONE process (look-alike headers: same NAXIS / CRPIX / CRVAL / CD / key names), calls
+    interleaved over them, array arguments handed over in buffers that are overwritten in place between calls, one
+    header dict object changed in place and used for the next construction: every call must return, bit for bit, what
+    the same call returns when made alone on a fresh object in a fresh python process (c10_fresh.py)"""
+    name = "sequence"
+
+    def cases(self, ctx, round=0):
+        return [dict(g.gen_sequence(ctx.rng), family="lookalikes/sequence/inside") for _ in range(ctx.n(5, 30) if round == 0 else 4)]
+
+    @staticmethod
+    def fresh(h, steps):
+        import subprocess
+        import sys
+        job = json.dumps({"header": h, "steps": steps})
+        r = subprocess.run([sys.executable, os.path.join(os.path.dirname(os.path.abspath(__file__)), "c10_fresh.py")],
+                           input=job, stdout=subprocess.PIPE, stderr=subprocess.PIPE, text=True, timeout=600, env=dict(os.environ))
+        if r.returncode != 0:
+            raise RuntimeError("fresh process failed: %s" % r.stderr[-300:])
+        return json.loads(r.stdout)
+
+    @guarded
+    def impl(self, c):
+        import numpy as np
+        W = _wcsutil().WCS
+        hs = c["headers"]
+        objs = {}
+        d = {}
+        for i in c["order"]:
+            if c["dictreuse"]:              # the same dict object, contents replaced in place
+                d.clear()
+                d.update(hs[i])
+                objs[i] = W(d)
+            else:
+                objs[i] = W(dict(hs[i]))
+        bufs = {}
+        outs = []
+        for st in c["steps"]:
+            w = objs[st["obj"]]
+            if st["arr"]:
+                k = (st["buf"], len(st["pts"]))
+                if k not in bufs:
+                    bufs[k] = (np.zeros(len(st["pts"])), np.zeros(len(st["pts"])))
+                a, b = bufs[k]
+                a[...] = [p[0] for p in st["pts"]]
+                b[...] = [p[1] for p in st["pts"]]
+            else:
+                a, b = float(st["pts"][0][0]), float(st["pts"][0][1])
+            if st["op"] == "i2s":
+                o = w.image2sky(a, b, distort=st["distort"])
+            elif st["op"] == "s2i":
+                kw = {} if st.get("xtol") is None else {"xtol": st["xtol"]}
+                o = w.sky2image(a, b, distort=st["distort"], find=st["find"], **kw)
+            else:
+                o = w.get_jacobian(a, b, distort=st["distort"], step=st.get("step", 1.0))
+            outs.append(flat(o))
+        base = [None] * len(c["steps"])
+        used = sorted(set(st["obj"] for st in c["steps"]))
+        idxs = {i: [k for k, st in enumerate(c["steps"]) if st["obj"] == i] for i in used}
+        from concurrent.futures import ThreadPoolExecutor
+        with ThreadPoolExecutor(len(used)) as ex:
+            ress = list(ex.map(lambda i: self.fresh(hs[i], [c["steps"][k] for k in idxs[i]]), used))
+        for i, res in zip(used, ress):
+            for k, v in zip(idxs[i], res):
+                base[k] = v
+        for v in base:
+            if isinstance(v, dict):
+                return {"err": "EOther", "msg": "fresh process: " + v["err"]}
+        return {"sequence": outs, "fresh": base}
+
+    def term(self, c, out):
+        if "err" in out:
+            return FAIL
+        a = [t for o in out["sequence"] for t in o]
+        b = [t for o in out["fresh"] for t in o]
+        if not (finite(a) and finite(b)):
+            return FAIL
+        return "v_same %s %s" % (cqlist(a), cqlist(b))
 
 
 class Cdinv(Base):
@@ -931,7 +1038,7 @@ def run(ctx, replay=None):
             return
     fw = Forward()
     sa = ScalarArray()
-    entries = [fw, RoundTrip(), sa, History(), Cdinv(), Forms()]
+    entries = [fw, RoundTrip(), sa, History(), Cdinv(), Forms(), Sequence()]
     # 3. replay of a certificate
     if replay is not None and replay.get("entry") in ("cert", "jac"):
         it = dict(replay["case"])
@@ -962,7 +1069,7 @@ def run(ctx, replay=None):
     ctx.count("observed:scalar_array-bit-identical", sa.identical)
     # 6. certificates
     t0 = time.time()
-    items = witems + cert_pool(fw, ctx, ctx.n(40, 480), ctx.n(6, 60))
-    items += jac_items(ctx, ctx.n(6, 60))
+    items = witems + cert_pool(fw, ctx, ctx.n(30, 360), ctx.n(4, 40))
+    items += jac_items(ctx, ctx.n(6, 40))
     certify(ctx, items, "cert")
     ctx.count("wall_s:certificates", round(time.time() - t0, 1))
